@@ -252,6 +252,9 @@ def metamodule_payload(draw, depth):
     kl = draw(st.integers(0, min(n, 4)))
     lidx = draw(st.lists(st.integers(0, max(0, n - 1)), min_size=kl, max_size=kl, unique=True)) if n else []
     p["labels"] = [[i, draw(vs.text_no_nul(12))] for i in lidx]
+    kc = draw(st.integers(0, min(n, 3)))
+    cidx = draw(st.lists(st.integers(0, max(0, n - 1)), min_size=kc, max_size=kc, unique=True)) if n else []
+    p["user_cmid"] = [[i] + draw(cmid_entry) for i in cidx]
     return p
 
 
@@ -339,8 +342,19 @@ def single_field_cell(draw):
 cell = st.one_of(full_cell, full_cell, single_field_cell())
 
 
+BIG_PATTERNS = {"on": False}
+
+
 @st.composite
 def pattern_spec(draw, max_lines=16, max_tracks=6):
+    if BIG_PATTERNS["on"] and draw(st.integers(0, 24)) == 0:
+        # a few large patterns (up to the documented 32 tracks, thousands of lines)
+        max_lines, max_tracks = draw(st.sampled_from([256, 1024, 2048])), 32
+    return draw(_pattern_spec(max_lines, max_tracks))
+
+
+@st.composite
+def _pattern_spec(draw, max_lines=16, max_tracks=6):
     kind = draw(st.sampled_from(["pattern", "pattern", "pattern", "clone", "empty"]))
     if kind == "empty":
         return None
@@ -516,6 +530,11 @@ def apply_payload(mod, tname, p):
         mod.user_defined_controllers = p.get("count", 0)
         for i, text in p.get("labels", []):
             mod.user_defined[i].label = text
+        from rv.cmidmap import MidiMessageType, Slope
+
+        for i, mtype, channel, slope, param in p.get("user_cmid", []):
+            mm = mod.controller_midi_maps["user_defined_%d" % (i + 1)]
+            mm.message_type, mm.channel, mm.slope, mm.message_parameter = MidiMessageType(mtype), channel, Slope(slope), param
 
 
 def make_module(ms):
@@ -670,6 +689,8 @@ def module_labels(ms):
             labels.add("metamodule")
             if pl.get("count"):
                 labels.add("metamodule_user_ctls")
+            if pl.get("user_cmid"):
+                labels.add("user_ctl_midi_binding")
     if ms.get("options"):
         labels.add("options_set")
     if ms.get("cmid"):
